@@ -151,14 +151,17 @@ def scope_of(m, case, upto, pre, cmd):
     sc = c06impl.CmdWorld(dict(case, word=case['word'][:upto]), observers=False)
     for sop in case['word'][:upto]:
         sc.do(sop)
+    steals = False
     for p in prims:
-        d = sc.dump()
+        try:
+            d = sc.dump()
+        except RecursionError:
+            return 'cycle'
         if prim_cycle(m, d, p):
             return 'cycle'
-        if prim_steals(m, d, p):
-            return 'steals'
+        steals = steals or prim_steals(m, d, p)
         sc.do(['exec', p])      # a member that fails here may still run inside the compound: keep looking
-    return None
+    return 'steals' if steals else None
 
 
 # ---------------------------------------------------------------- comparison of two dumps, as the property words it
@@ -643,7 +646,7 @@ def gen_case(rng, thorough):
         d = w.dump()
         r = rng.random()
         room = length - len(case['word'])
-        if ndone and room >= 2 and rng.random() < 0.12:
+        if ndone and room >= 2 and rng.random() < 0.15:
             k = rng.randrange(1, min(ndone, room // 2) + 1)
             block = [['undo']] * k + [['redo']] * k
             for sop in block:
